@@ -168,6 +168,16 @@ def run_case(rep, scn, case, sb, tag, rows):
     inflight = sum(1 for _ in [])  # transport-side counter, summed over repositories at each instant:
     cur = peak = 0
     # stream enter happens right after AcqD, exit right before RelD: the D trace is the in-flight trace
+    if res.nonterminating:
+        found = True
+        started = sum(up.counts.get(p, 0) > 0 for up in res.ups.values() for p in up.files)
+        rep.violation(f"nthreads={n}, {len(scn.repos)} repositories: the run never completes ({res.exc}); "
+                      f"{started} of {sum(len(up.files) for up in res.ups.values())} upstream files were ever requested",
+                      {"kind": "oracle", "tie": "sched", "case": jc}, tags={"oracle": "deadlock"})
+    elif not case["faults"] and res.code != 0:
+        found = True
+        rep.violation(f"nthreads={n}: fault-free run exits {res.code} ({res.exc})",
+                      {"kind": "oracle", "tie": "sched", "case": jc}, tags={"oracle": "terminates"})
     if res.code not in (0, 1):
         found = True
         rep.violation(f"run did not terminate normally (exit {res.code}, {res.exc})",
